@@ -25,6 +25,39 @@ CMPOPS = {
 }
 
 
+
+# attributes of a DER-built library object that do not decode anything: the stored bytes and their length
+EAGER_ATTRIBUTES = {'der', 'dump', 'contents', 'native'}
+LAZY_CONSTRUCTORS = ('from_der', 'load')
+
+
+def parser_alternatives(v):
+    return isinstance(v, Sym) and v.op == 'phi' and len(v.args) > 1 and all(isinstance(a, ParserV) for a in v.args)
+
+
+def lazily_decoded(v):
+    """is ``v`` the object a DER decoder of the dependency returned (directly, or as the converted value of a parsed field)?"""
+    def decoder(f):
+        t = show(f)
+        return any(t.endswith('.' + n) or t.endswith('.' + n + ')') or (' ' + n) in t and t.endswith(n) for n in LAZY_CONSTRUCTORS) and 'asn1' not in t.lower() or \
+            any(t.endswith('.' + n) for n in LAZY_CONSTRUCTORS)
+    if isinstance(v, FieldV) and v.op is not None:
+        for a in ('converter', 'item_class'):
+            c = v.op.args.get(a)
+            if c is not None and decoder(c):
+                return True
+        return False
+    if isinstance(v, Sym) and v.op == 'call' and v.args:
+        return decoder(v.args[0])
+    if isinstance(v, Sym) and v.op == 'index' and isinstance(v.args[1], str):
+        # parser[key] where the parser is one of several (phi): the field of any of them
+        base = v.args[0]
+        parsers = [base] if isinstance(base, ParserV) else [a for a in base.args if isinstance(a, ParserV)] if isinstance(base, Sym) and base.op == 'phi' else []
+        return any(lazily_decoded(p.keys.get(v.args[1])) for p in parsers)
+    if isinstance(v, Sym) and v.op == 'phi':
+        return any(lazily_decoded(a) for a in v.args)
+    return False
+
 class SuperV:
     def __init__(self, after, recv):
         self.after = after      # ClassInfo after which the MRO search starts
@@ -496,6 +529,8 @@ class ExprMixin:
         return self.getitem(base, idx, node, fr)
 
     def getitem(self, base, idx, node=None, fr=None):
+        if parser_alternatives(base) and isinstance(idx, str):
+            return Sym('phi', *[self.getitem(a, idx, node, fr) for a in base.args])
         if isinstance(base, ParserV):
             if isinstance(idx, str):
                 if idx in base.keys and idx not in base.deleted:
@@ -576,6 +611,10 @@ class ExprMixin:
             # asn1crypto decodes lazily: .native of the object returned by load() walks the whole structure and raises
             # ValueError (malformed / short encoding) or KeyError (ENUMERATED value outside the schema map)
             self.risk(fr, 'ext:.native', ('builtins.ValueError', 'builtins.KeyError'), base, node)
+        if node.attr not in EAGER_ATTRIBUTES and lazily_decoded(base):
+            # objects of the dependency built from DER (PublicKeyX509.from_der -> asn1crypto Certificate.load) decode their
+            # members on first access: reading a property of one walks into the undecoded part and raises ValueError there
+            self.risk(fr, 'ext:lazy.%s' % node.attr, ('builtins.ValueError',), base, node)
         return self.getattr_v(base, node.attr, fr, node)
 
     def class_attr(self, cinfo, attr, recv, fr):
@@ -632,6 +671,12 @@ class ExprMixin:
         return typ
 
     def getattr_v(self, base, attr, fr, node=None):
+        if parser_alternatives(base):
+            # one of several parsers (``try: parser = helper(...)  except: parser = ParserBinary(...)``): the attribute of each
+            vals = [self.getattr_v(a, attr, fr, node) for a in base.args]
+            if all(isinstance(v, FuncV) for v in vals) and len({id(v.func) for v in vals}) == 1:
+                return FuncV(vals[0].func, recv=base, defcls=vals[0].defcls)
+            return Sym('phi', *vals)
         if isinstance(base, ParserV):
             n = len(base.ops)
             if attr == 'parsed_length':
